@@ -171,6 +171,7 @@ Lemma create_tail_run k kw id s :
     let s4 := with_log s3 (SSelectOne k id all_cols :: log s) in
     i_id i1 = id /\
     (i_k i1 = k /\ i_obsolete i1 = false /\ i_pending i1 = [] /\ i_dirty i1 = false /\ i_expired i1 = false /\
+     i_vals i1 = i_vals (fold_left (fun i cv => set_val (fst cv) (snd cv) i) kw (blank_inst k 0)) /\
      cache_created cfg k id o (with_heap s (heap s ++ [i1])) = (Ret tt, with_caches (with_heap s (heap s ++ [i1])) c')) /\
     create_tail k kw id s =
       if (match fault s with Some n => Nat.eqb n (length (log s)) | None => false end)
